@@ -332,7 +332,7 @@ impl<TStdlib: Stdlib, TStdIn: Input, TStdOut: Printer, TLpt1: Printer>
                 registers::push_registers(self);
             }
             Instruction::PopRegisters => {
-                registers::pop_registers(self);
+                registers::pop_registers(self).with_err_at(&pos)?;
             }
             Instruction::LoadIntoA(v) => {
                 registers::load_into_a(self, v);
